@@ -84,10 +84,18 @@ namespace occa {
       scope.props["defines"][startName] = 0;
     }
 
-    if (range.step != 1 && range.step != -1) {
-      scope.add(stepName, range.step);
+    // The loop is written [i += step] or [i -= step]
+    // so it needs the magnitude of the step
+    const dim_t absStep = (
+      range.step > 0
+      ? range.step
+      : -range.step
+    );
+
+    if (absStep != 1) {
+      scope.add(stepName, absStep);
     } else {
-      scope.props["defines"][stepName] = range.step;
+      scope.props["defines"][stepName] = 1;
     }
 
     scope.add(endName, range.end);
